@@ -60,7 +60,7 @@ static bool inv(C& c)
         return false;
 #endif
     if (c.m_used_size > n || c.m_keyed_elements.m_size != c.m_used_size || c.m_ttl_list.m_size != c.m_used_size ||
-        c.m_keyed_elements.m_reserved < n)
+        !c.m_keyed_elements.guaranteed(n))
         return false;
     if (c.m_lru_end.l != &c.m_lru_list || c.m_lru_end.i != vf_list_at(c.m_lru_list, c.m_used_size, n))
         return false;
